@@ -44,6 +44,59 @@ def generic_violations(case, results, expect_crash=None):
     return out
 
 
+def generic_coverage(case, results):
+    """simulated engine time (SI seconds), virtual wall-clock consumed by run(), iterations driven -- measured from the
+    event logs, for the evidence files"""
+    import struct as _struct
+    from . import si as _si
+    sim_s = 0.0
+    vclock_ms = 0
+    run_slices = 0
+    slices_ended_by_clock = 0
+    for li, res in enumerate(results):
+        lt = case["lifetimes"][li]
+        last_t = {}
+        for ev in res.events:
+            if ev.get("skipped") or "exc" in ev:
+                continue
+            ep = lt["episodes"][ev["e"]]
+            try:
+                eu = case["scripts"][ep["script"]]["phys"]["eu"]
+                ft = _si.factor(eu, _si.DIM_TIME)
+            except Exception:
+                continue
+            op = ev["op"]
+            t = None
+            if op == "setup":
+                if ev["e"] in last_t:
+                    sim_s += last_t.pop(ev["e"])
+            elif op == "observe":
+                t = ev["t"]
+            elif op == "drive" and ev.get("obs_t"):
+                t = ev["obs_t"][-1]
+            elif op in ("output",) and ev.get("raw_t"):
+                t = _struct.unpack_from("<d", ev["raw_t"], len(ev["raw_t"]) - 8)[0]
+            if t is not None and t == t and abs(t) < 1e300:
+                last_t[ev["e"]] = max(last_t.get(ev["e"], 0.0), t * ft)
+            if op == "drive" and ev.get("run_stats"):
+                run_slices += ev["run_stats"][0]
+                slices_ended_by_clock += ev["run_stats"][1]
+                vclock_ms += ev["run_stats"][2]
+            if op == "simulate_script":
+                run_slices += max(0, ev.get("calls", 0))
+            if op == "run":
+                plan = ep["ops"][ev["i"]][2]
+                if isinstance(plan, list) and plan:
+                    k = min(max(ev.get("calls", 1) - 1, 0), len(plan) - 1)
+                    vclock_ms += max(0, plan[k] - plan[0])
+                    run_slices += 1
+                    if ev.get("ret"):
+                        slices_ended_by_clock += 1
+        sim_s += sum(last_t.values())
+    return {"simulated_engine_seconds": sim_s, "virtual_clock_ms": vclock_ms, "run_slices": run_slices,
+            "run_slices_ended_by_clock": slices_ended_by_clock}
+
+
 def evaluate(prof, case, libs, timeout):
     """run a case and apply the profile's oracles. returns (violations, stats, results)"""
     lib = libs[os.environ.get("RDSIM_FORCE_BUILD") or case.get("build", "plain")]
@@ -67,6 +120,10 @@ def evaluate(prof, case, libs, timeout):
         viol.append({"class": "harness", "oracle": "harness", "detail": "oracle raised:\n" + traceback.format_exc(),
                      "lifetime": None})
         return viol, stats, results
+    try:
+        stats.update(generic_coverage(case, results))
+    except Exception:
+        pass
     # a profile may declare crashes expected/attributed (known findings); it returns them relabelled
     if stats.pop("_drop_generic_crashes", False):
         viol = [v for v in viol if v["class"] not in ("crash",)]
